@@ -34,6 +34,7 @@ pub struct Core {
     pub proj: bool,
     pub restarts: u64,
     pub gone: Option<String>,
+    pub drop_after: Vec<String>,
 }
 
 pub async fn base_config() -> Config {
@@ -53,8 +54,11 @@ pub fn err_code(e: &WorterbuchError) -> u64 {
 
 impl Core {
     pub async fn new(meaning: Map<String, Value>, proj: bool) -> Core {
+        // header field "extmon": the server's extended monitoring of subscriptions, locks and connection times
+        let mut cfg = base_config().await;
+        cfg.extended_monitoring = meaning.get("__extmon").and_then(|x| x.as_bool()).unwrap_or(false);
         Core {
-            wb: Worterbuch::with_config(base_config().await),
+            wb: Worterbuch::with_config(cfg),
             names: Names::new(meaning),
             subs: BTreeMap::new(),
             ls: BTreeMap::new(),
@@ -64,6 +68,7 @@ impl Core {
             proj,
             restarts: 0,
             gone: None,
+            drop_after: Vec::new(),
         }
     }
 
@@ -249,8 +254,9 @@ impl Core {
             "unsub" => {
                 let id = self.names.id(&c);
                 let res = self.wb.unsubscribe(id, u(r, "tid")).await;
-                // the session drops its receiver together with the subscription
-                self.subs.remove(&format!("{}:{}", c, u(r, "tid")));
+                // the session's forwarding task ends when the core drops its sender: what the core sent
+                // before that is still forwarded; the receiver is dropped after the step has been observed
+                self.drop_after.push(format!("{}:{}", c, u(r, "tid")));
                 match res {
                     Ok(()) => json!({"t": "ok"}),
                     Err(e) => Self::err(e),
@@ -463,10 +469,20 @@ impl Core {
         match res {
             Ok(rep) => {
                 rec["rep"] = rep;
-                let (ev, ls, lk) = self.drain();
+                let (mut ev, mut ls, lk) = self.drain();
+                for k in self.drop_after.drain(..) {
+                    self.subs.remove(&k);
+                }
                 if let Some(prefix) = self.gone.take() {
                     self.subs.retain(|k, _| !k.starts_with(&prefix));
                     self.ls.retain(|k, _| !k.starts_with(&prefix));
+                    // what the core still sent to the departing session's own subscriptions is seen by nobody
+                    if let Some(o) = ev.as_object_mut() {
+                        o.retain(|k, _| !k.starts_with(&prefix));
+                    }
+                    if let Some(o) = ls.as_object_mut() {
+                        o.retain(|k, _| !k.starts_with(&prefix));
+                    }
                 }
                 rec["ev"] = ev;
                 rec["ls"] = ls;
@@ -562,7 +578,10 @@ pub fn main_run(args: &[String]) -> i32 {
     rt.block_on(async move {
         let mut lines = input.lines();
         let hdr: Value = serde_json::from_str(&lines.next().expect("header").expect("io")).expect("json");
-        let meaning = hdr["meaning"].as_object().cloned().unwrap_or_default();
+        let mut meaning = hdr["meaning"].as_object().cloned().unwrap_or_default();
+        if hdr["extmon"].as_bool().unwrap_or(false) {
+            meaning.insert("__extmon".to_owned(), json!(true));
+        }
         let proj = hdr["proj"].as_bool().unwrap_or(false);
         writeln!(out, "{}", hdr).ok();
         let mut core = Core::new(meaning.clone(), proj).await;
